@@ -26,15 +26,15 @@ THEOREMS = ["expand_eq_ext", "u64_eq_big_expand", "big_eq_ref_add", "u64_eq_big_
             "big_eq_ref_eqw", "u64_eq_ref_eqw", "u64_eq_big_eqw", "C17_eqw", "C17_new", "big_eq_ref_shl",
             "u64_eq_big_shl", "big_eq_ref_ashl", "u64_eq_big_ashl", "big_eq_ref_lshr", "u64_eq_big_lshr",
             "big_eq_ref_ashr", "u64_eq_big_ashr", "shift_saturation", "C17_shl", "C17_ashl", "C17_lshr",
-            "C17_ashr", "big_eq_ref_neg", "u64_eq_big_neg_partial", "C17_neg_partial", "C17_neg_witness",
-            "big_eq_ref_rel", "u64_eq_ref_rel", "u64_eq_big_rel", "C17_lt", "C17_le", "C17_gt", "C17_ge",
-            "big_eq_ref_div", "u64_eq_big_div", "u64_eq_ref_div", "C17_div", "big_eq_ref_rem",
-            "u64_eq_big_rem", "u64_eq_ref_rem", "C17_rem", "div0_is_x", "i64_min_div_neg1",
-            "C17_pow_witness_xz_exponent", "C17_pow_witness_signed_base",
-            "C17_pow_witness_saturated_exponent", "trunc_eq_ref", "select_eq_ref", "C17_select_witness",
-            "concat_eq_ref", "assign_eq_ref", "C17_assign_witness", "pow_neg_table", "big_eq_ref_pow",
-            "u64_eq_big_pow", "C17_pow_partial", "ref_powMod_eq", "canon_u64_example", "canon_big_example",
-            "canon_fill_example"]
+            "C17_ashr", "big_eq_ref_neg", "u64_eq_big_neg", "u64_eq_ref_neg", "C17_neg",
+            "C17_neg_width64_zero", "old_u64_eq_big_neg_partial", "old_C17_neg_witness", "big_eq_ref_rel",
+            "u64_eq_ref_rel", "u64_eq_big_rel", "C17_lt", "C17_le", "C17_gt", "C17_ge", "big_eq_ref_div",
+            "u64_eq_big_div", "u64_eq_ref_div", "C17_div", "big_eq_ref_rem", "u64_eq_big_rem",
+            "u64_eq_ref_rem", "C17_rem", "div0_is_x", "i64_min_div_neg1", "C17_pow_witness_xz_exponent",
+            "C17_pow_witness_signed_base", "C17_pow_witness_saturated_exponent", "trunc_eq_ref",
+            "select_eq_ref", "C17_select_witness", "concat_eq_ref", "assign_eq_ref", "C17_assign_witness",
+            "pow_neg_table", "big_eq_ref_pow", "u64_eq_big_pow", "C17_pow_partial", "ref_powMod_eq",
+            "canon_u64_example", "canon_big_example", "canon_fill_example"]
 
 UN_HANDLED = {"Add", "Sub", "BitNot", "BitAnd", "BitNand", "BitOr", "BitNor", "LogicNot", "BitXor", "BitXnor"}
 BIN_HANDLED = {"Add", "Sub", "Mul", "Div", "Rem", "BitAnd", "BitOr", "BitXor", "BitXnor", "Eq", "Ne", "EqWildcard",
@@ -51,8 +51,6 @@ KEY_TEXT = {
     "Ne:4state-operand-x": "Op::Ne, dual of Eq: gives 1 where IEEE gives x",
     "LogicAnd:known-zero-and-x": "Op::LogicAnd returns x whenever any operand has X/Z unless both are non-zero; "
                                  "`0 && x` must be 0 (IEEE §11.4.7)",
-    "UnarySub:u64-width64-zero-overflow": "unary minus, U64 arm, width 64, operand 0: `ret.payload += 1` after `^= mask` "
-                                          "overflows (debug-profile panic, op.rs ~675); BigUint arm and IEEE give 0",
     "Pow:xz-exponent-negative-path": "Op::Pow takes the negative-exponent table when the signed exponent's msb payload bit is "
                                      "1 (a Z msb or any X/Z below a 1 msb) and ignores the exponent's X/Z: IEEE gives x",
     "Pow:signed-base-unsigned-ctx": "Op::Pow with base == -1 (all ones, signed flag) whose width equals the context width in an "
@@ -167,9 +165,6 @@ def classify(req, impl, oracle):
                 base = ext(x, cw, req["cs"])[0]
                 if impl == (cw, pow(base, (1 << 64) - 1, 1 << cw), 0) and oracle == (cw, pow(base, y["p"], 1 << cw), 0):
                     return "Pow:exponent>=2^64-saturated"
-    if k == "un" and op == "Sub" and impl == "panic":
-        if req["cw"] == 64 and x["m"] == 0 and x["p"] == 0 and x["w"] <= 64 and oracle == (64, 0, 0):
-            return "UnarySub:u64-width64-zero-overflow"
     if k == "select" and isinstance(impl, tuple) and isinstance(oracle, tuple):
         inrange = max(0, x["w"] - req["end"])
         if (req["beg"] >= x["w"] and req["end"] <= req["beg"] and impl[0] == oracle[0] and impl[1] == oracle[1]
@@ -194,10 +189,8 @@ def classify(req, impl, oracle):
 
 
 def classify_twin(req, rep_impl, twin_impl):
-    """binrep/unrep reply differs from the twin bin/un reply."""
-    if (req["kind"] == "unrep" and req["op"] == "Sub" and twin_impl == "panic" and req["cw"] == 64
-            and req["x"]["p"] == 0 and req["x"]["m"] == 0 and rep_impl == (64, 0, 0)):
-        return "UnarySub:u64-width64-zero-overflow"
+    """binrep/unrep reply differs from the twin bin/un reply: no known deviation of this kind (the
+    unary-minus overflow at width 64 was repaired by /repo commit c18109e; a recurrence is a violation)."""
     return None
 
 
